@@ -34,6 +34,9 @@ func init() {
 			{ID: "R10h", Floor: 5, Doc: "`car index`, the CLI wrap, re-emits the payload with offsets that advance by every section copied (= R19d)", Run: ruleR19d},
 			{ID: "R10l", Floor: 2, Doc: "a wrap indexes every valid CARv1: the CID-size limit is applied only to sections that get an index record (= R03c)", Run: ruleR03c},
 			{ID: "R10m", Floor: 7, Doc: "every header writer encodes the header it was given (nil roots stay null): a transform that re-writes a header must reproduce its bytes (= R01c)", Run: ruleR01c},
+			{ID: "R10n", Floor: 1, Doc: "the transforms accept every valid CARv1: no function of the v2 library (readers, stores, transforms) goes through carv1.NewCarReader*, whose legacy rejection of a header without roots no other part of the library shares", Run: ruleR10n},
+			{ID: "R10o", Floor: 1, Doc: "the fully-indexed characteristic is set from the StoreIdentityCIDs option, wherever it is set: a transform that sets it on its own announces a complete catalogue over an index that leaves identity sections out", Run: ruleR10o},
+			{ID: "R10p", Floor: 1, Doc: "ReplaceRootsInFile reports success only as the outcome of writing the new header: it has no `return nil` of its own (a same-roots shortcut, compared by multihash, leaves other roots in place)", Run: ruleR10p},
 		},
 	})
 }
@@ -282,8 +285,21 @@ func ruleR10c(c *Ctx, r *Report) {
 		r.Undec(key, c.Pos(fn.Pos()), "pragma write / header write / copy / index write not all found")
 		return
 	}
+	// a before b on every path that gets to b: same block and earlier, a dominator, or — for the
+	// shape an inlined helper with early error returns leaves behind — b unreachable once the
+	// edges out of a's block are cut (the error exits rejoin behind a merge whose test is decided)
 	ordered := func(a, b ssa.Instruction) bool {
-		return (a.Block() == b.Block() && instrIndex(a) < instrIndex(b)) || (a.Block() != b.Block() && a.Block().Dominates(b.Block()))
+		if a.Block() == b.Block() {
+			return instrIndex(a) < instrIndex(b)
+		}
+		if a.Block().Dominates(b.Block()) {
+			return true
+		}
+		cut := EdgeSet{}
+		for i := range a.Block().Succs {
+			cut[Edge{From: a.Block(), Succ: i}] = true
+		}
+		return !reach(fn, nil, cut)[b.Block()]
 	}
 	switch {
 	case !ordered(pragmaW, hdrW) || !ordered(hdrW, cp) || !ordered(cp, idxW):
